@@ -1,0 +1,54 @@
+//! Verification hook for property C30 (compiled only with `--cfg libp2p_verif`).
+//!
+//! A `pub` wrapper around the private [`GossipsubCodec`]: it only constructs the codec and calls
+//! its `Decoder::decode`, handing out the accepted and the rejected messages of the decoded RPC
+//! (public types [`RawMessage`] and [`ValidationError`]).
+
+use std::collections::HashMap;
+
+use asynchronous_codec::Decoder;
+use bytes::BytesMut;
+
+use crate::{
+    RawMessage, ValidationError, ValidationMode, handler::HandlerEvent, protocol::GossipsubCodec,
+    topic::TopicHash,
+};
+
+/// `GossipsubCodec` as a `Decoder` of (messages, invalid_messages).
+pub struct Codec(GossipsubCodec);
+
+impl Codec {
+    /// `GossipsubCodec::new`
+    pub fn new(
+        global_max_transmit_size: usize,
+        validation_mode: ValidationMode,
+        max_transmit_sizes: HashMap<TopicHash, usize>,
+        max_publish_messages: usize,
+        max_control_message_size: usize,
+    ) -> Self {
+        Codec(GossipsubCodec::new(
+            global_max_transmit_size,
+            validation_mode,
+            max_transmit_sizes,
+            max_publish_messages,
+            max_control_message_size,
+        ))
+    }
+}
+
+impl Decoder for Codec {
+    type Item = (Vec<RawMessage>, Vec<(RawMessage, ValidationError)>);
+    type Error = std::io::Error;
+
+    fn decode(&mut self, src: &mut BytesMut) -> Result<Option<Self::Item>, Self::Error> {
+        match self.0.decode(src) {
+            Ok(Some(HandlerEvent::Message {
+                rpc,
+                invalid_messages,
+            })) => Ok(Some((rpc.messages, invalid_messages))),
+            Ok(Some(_)) => unreachable!("the codec only produces HandlerEvent::Message"),
+            Ok(None) => Ok(None),
+            Err(e) => Err(e.into()),
+        }
+    }
+}
